@@ -268,6 +268,13 @@ impl Tree {
                 t.secrets.push(Secret { abs: sd.join(&name), marker: marker("SECRET", salt, &key), up: 1, name: format!("{}/{}", sib, name), shape });
             }
         }
+        // sibling files whose name is the root's name with something appended (an editor backup, a dump next to the directory)
+        for (ext, shape) in [(".bak", "sibling-plain-file"), ("-private.txt", "sibling-plain-file"), (".html", "sibling-html-twin-of-the-root")] {
+            let sib = format!("{}{}", spec.root_name, ext);
+            let key = format!("sibling-file/{}", sib);
+            std::fs::write(parent.join(&sib), content("SECRET", salt, &key, 100))?;
+            t.secrets.push(Secret { abs: parent.join(&sib), marker: marker("SECRET", salt, &key), up: 1, name: sib.clone(), shape });
+        }
         // outside area for owner-placed links: parent/linked-area/{ok-dir/{f.txt,index.html}, beside.txt (SECRET next to the linked dir)}
         let linked_area = parent.join("linked-area");
         std::fs::create_dir_all(linked_area.join("ok-dir"))?;
@@ -307,6 +314,7 @@ impl Tree {
                 EntrySpec::File { size, .. } => {
                     let sz = *size as usize;
                     std::fs::write(&path, content_sized(salt, &eurl, sz))?;
+                    set_mtime_class(&path, super::hash64(&(salt, eurl.as_str(), "mtime")));
                     self.files.push(TFile { url: eurl.clone(), marker: marker("FILE", salt, &eurl), kind: "file" });
                     files.push(eurl);
                 }
@@ -409,6 +417,18 @@ impl Tree {
     }
 
     pub fn abs(&self, url: &str) -> PathBuf { self.root.join(url.trim_start_matches('/')) }
+}
+
+/// Modification time as a generated attribute of regular files: half keep "now"; the others get a time in the future (a day, twenty years, the year 2100),
+/// at the start of the epoch, or before it (what a restored backup, a skewed clock or an unpacked archive leave behind).
+fn set_mtime_class(path: &Path, h: u64) {
+    let now = std::time::SystemTime::now().duration_since(std::time::UNIX_EPOCH).map(|d| d.as_secs() as i64).unwrap_or(0);
+    let secs: i64 = match h % 10 { 0 => now + 86_400, 1 => now + 20 * 365 * 86_400, 2 => 4_102_444_800, 3 => 1, 4 => -86_400, _ => return };
+    use std::os::unix::ffi::OsStrExt;
+    if let Ok(c) = std::ffi::CString::new(path.as_os_str().as_bytes()) {
+        let times = [libc::timespec { tv_sec: secs, tv_nsec: 0 }, libc::timespec { tv_sec: secs, tv_nsec: 0 }];
+        unsafe { libc::utimensat(libc::AT_FDCWD, c.as_ptr(), times.as_ptr(), 0); }
+    }
 }
 
 fn content_sized(salt: u64, url: &str, size: usize) -> Vec<u8> {
